@@ -1,1 +1,204 @@
-From Ont Require Import Model.VmValue.
+(** C14 — NeoVM value serialization round-trips and rejects cycles safely.
+
+    Model: Model/VmValue.v (VmValue.Serialize / Deserialize / BuildParamToNative and
+    CircularRefAndDepthDetection over heap graphs, so that sharing and reference cycles exist;
+    outcome SETS where Go's randomised map iteration decides). Limits, comparison operands and type
+    tags: Gen/VmValueConsts.v, regenerated from /repo's source on every run.
+
+    Statement, clause by clause:
+    (1) round trip: [c14_deser_ser] (full: acceptance and decoding to the canonical representative),
+        [c14_deser_ser_whenever_accepted] (any nesting Serialize lets through, up to MAX_COUNT),
+        [c14_norm_canonical] (the representative is canonical and has the same encoding);
+    (2) every byte string is decoded or refused, never stuck: [c14_deser_total],
+        [c14_deser_in_bounds], [c14_deser_output_within_limits];
+    (3) cycles: the full statement [cycle_rejected] is REFUTED on the current tree (finding F4):
+        [c14_cycle_rejected_refuted], witness w = [1, w]; what does hold is
+        [c14_cycle_rejected_partial] (Serialize: every run ends with an error, the recursion being
+        bounded only by the 1 MiB output limit; both entry points: a cycle through first elements is
+        refused by the detector at once; BuildParamToNative never accepts a cyclic value - when it
+        returns at all). *)
+From Coq Require Import List Bool Arith NArith ZArith Lia.
+Import ListNotations.
+From Ont Require Import Lib.Bytes Model.NeoInt Gen.VmValueConsts Model.VmValue.
+From Ont Require Import Proofs.VmValueLib Proofs.VmValueCodec Proofs.VmValueCycle Proofs.VmValueAccept Proofs.VmValueNorm
+  Proofs.VmValueWf.
+Local Open Scope N_scope.
+
+(** The limit comparisons of the source have the operands the model assumes (left-hand sides are
+    the plain depth / size / length; the right-hand sides are the constants the model reads). *)
+Theorem c14_limit_sites :
+  (forall x, detect_depth x = x) /\ (forall x, deser_depth x = x) /\ (forall x, ser_size x = x) /\
+  (forall x, bytes_len x = x) /\ (forall x, array_append_len x = x) /\ (forall x, struct_append_len x = x) /\
+  (forall x, int_maglen x = x).
+Proof. exact sites_are_identity. Qed.
+Print Assumptions c14_limit_sites.
+
+(** * (1) Round trip *)
+
+(** Any acyclic VM value (a heap value [v] with a finite unfolding [t]; sub-values may be shared)
+    nested at most MAX_STRUCT_DEPTH deep, within the VM's limits (integers within MAX_INT_SIZE
+    bytes, arrays/structs within MAX_ARRAY_SIZE, map keys with distinct images, no interop) and whose
+    encoding fits MAX_BYTEARRAY_SIZE: the ONLY possible outcome of Serialize is the encoding [enc t],
+    and Deserialize reads it back completely as [norm t]. *)
+Theorem c14_deser_ser : forall (h : heap) (v : hval) (f : nat) (t : tval),
+  unfold h f v = Some t ->
+  (tdepth t <= max_struct_depth)%nat ->
+  within_limits t = true ->
+  N.of_nat (length (enc t)) <= max_ser_size ->
+  h_serialize h 0 f v [] = rs_ret (enc t) /\ deserialize (enc t) = DOk (norm t, []).
+Proof.
+  intros h v f t Hu Hd Hw Hs. split.
+  - apply (serialize_accepts h 0 f v t []); [exact Hu| |apply within_interop_free; exact Hw|exact Hs].
+    pose proof (theight_le_depth t). lia.
+  - unfold deserialize, deser_fuel. rewrite <- (app_nil_r (enc t)) at 2.
+    pose proof struct_depth_le_count.
+    apply deser_enc; [exact Hw|lia|exact Hs|lia].
+Qed.
+Print Assumptions c14_deser_ser.
+
+(** Deeper values (the detector looks at first elements only, so Serialize lets deep nesting in
+    other positions through): whenever Serialize can succeed at all - from any sink prefix size
+    [base], with any stack [f] - what it wrote is [enc] of the unfolding, and within the decoder's
+    own limits (depth MAX_COUNT) it reads back as [norm t]. *)
+Theorem c14_deser_ser_whenever_accepted : forall h base f v bs,
+  r_ok (h_serialize h base f v []) = Some bs ->
+  exists t, unfold h f v = Some t /\ bs = enc t /\
+    (within_limits t = true -> (tdepth t <= max_count)%nat -> deserialize bs = DOk (norm t, [])).
+Proof. exact deser_ser_heap. Qed.
+Print Assumptions c14_deser_ser_whenever_accepted.
+
+(** "equal value": [norm t] is the canonical representative of [t] - integers in the
+    representation IsInt64 selects, map entries in sorted key-image order, everything else
+    untouched; normalising twice changes nothing and [t] and [norm t] have the same encoding. *)
+Theorem c14_norm_canonical : forall t, within_limits t = true -> norm (norm t) = norm t /\ enc (norm t) = enc t.
+Proof. exact norm_canonical. Qed.
+Print Assumptions c14_norm_canonical.
+
+(** * (2) Deserialize on arbitrary bytes *)
+
+(** Never stuck: the fuel [deserialize] supplies (2*len+1 nested calls and loop iterations) is
+    never exhausted, for any byte string. *)
+Theorem c14_deser_total : forall b, deserialize b <> DOof.
+Proof. exact deser_total. Qed.
+Print Assumptions c14_deser_total.
+
+(** What is accepted was read from inside the input. *)
+Theorem c14_deser_in_bounds : forall b t r, deserialize b = DOk (t, r) -> (length r < length b)%nat.
+Proof. exact deser_in_bounds. Qed.
+Print Assumptions c14_deser_in_bounds.
+
+(** What is accepted respects the VM's limits: nesting at most MAX_COUNT+1 containers... *)
+Theorem c14_deser_output_within_limits : forall b t r, deserialize b = DOk (t, r) ->
+  within_limits t = true /\ (tdepth t <= S max_count)%nat.
+Proof. exact deser_output_within_limits. Qed.
+Print Assumptions c14_deser_output_within_limits.
+
+(** * (3) Reference cycles *)
+
+(** "every possible run ends with an error": no success, no exhaustion, some error *)
+Definition rejects (r : rs) : Prop := r_ok r = None /\ r_oof r = false /\ r_errs r <> [].
+
+(** FULL STATEMENT: a value with a reachable reference cycle (at any position) is rejected with an
+    error by Serialize and by BuildParamToNative - given enough stack, however much. *)
+Definition cycle_rejected : Prop :=
+  forall h v, cyclic h v ->
+    (exists f, rejects (h_serialize h 0 f v [])) /\ (exists f, rejects (h_build h f v [])).
+
+(** KNOWN FINDING F4: refuted. On w = [1, w] the detector answers false (it inspects element 0
+    only) and BuildParamToNative recurses for ever: with ANY stack it is still recursing. *)
+Theorem c14_cycle_rejected_refuted : ~ cycle_rejected.
+Proof.
+  intro H. destruct (H W_heap W W_cyclic) as [_ [f [_ [Hoof _]]]].
+  destruct (build_witness_diverges f []) as [_ [_ Ht]]. congruence.
+Qed.
+Print Assumptions c14_cycle_rejected_refuted.
+
+Theorem c14_witness : cyclic W_heap W /\ detect_top W_heap W = (true, false) /\
+  (forall f s, let r := h_build W_heap f W s in r_ok r = None /\ r_errs r = [] /\ r_oof r = true) /\
+  (forall base f s, base + N.of_nat (length s) + 5 * N.of_nat f <= max_ser_size ->
+     let r := h_serialize W_heap base f W s in r_ok r = None /\ r_errs r = [] /\ r_oof r = true).
+Proof.
+  split; [exact W_cyclic|]. split; [exact W_not_detected|]. split; [exact build_witness_diverges|].
+  intros base f s H. exact (serialize_witness_deep base f s H).
+Qed.
+Print Assumptions c14_witness.
+
+(** PARTIAL (what holds on the current tree):
+    (a) Serialize: on EVERY heap and EVERY value with a reachable cycle, every possible run ends with
+        an error - but only because the size test stops it: the stack needed is [ser_fuel] =
+        MAX_BYTEARRAY_SIZE/2 + MAX_STRUCT_DEPTH + 3 nested calls (and [c14_witness] shows the witness
+        does need more than MAX_BYTEARRAY_SIZE/5 of them);
+    (b) a cycle through first elements (every first-element path from v is longer than the depth
+        limit; for maps: whichever entry Go iterates first) is refused by the detector at the
+        outermost call of both entry points, with the circular-reference error and nothing else;
+    (c) BuildParamToNative never accepts a cyclic value (if it returns, it returns an error), and it
+        does terminate on every acyclic value.
+    Missing for the full statement: BuildParamToNative on cycles that avoid element 0. *)
+Theorem c14_cycle_rejected_partial :
+  (forall h base v, cyclic h v -> rejects (h_serialize h base ser_fuel v [])) /\
+  (forall h v, endless h (S max_struct_depth) v -> forall base f s,
+     h_serialize h base (S f) v s = mkRs None [ECircular] false /\ h_build h (S f) v s = mkRs None [ECircular] false) /\
+  (forall h v, cyclic h v -> forall f s, r_ok (h_build h f v s) = None) /\
+  (forall h f v t, unfold h f v = Some t -> forall s, r_oof (h_build h f v s) = false).
+Proof.
+  split; [exact serialize_cyclic_rejected|]. split; [exact first_element_cycle_rejected|].
+  split; [exact build_cyclic_never_ok|exact build_acyclic_terminates].
+Qed.
+Print Assumptions c14_cycle_rejected_partial.
+
+(** Serialize's recursion is bounded on every heap value, cyclic or not. *)
+Theorem c14_serialize_terminates : forall h base v, r_oof (h_serialize h base ser_fuel v []) = false.
+Proof. exact serialize_terminates. Qed.
+Print Assumptions c14_serialize_terminates.
+
+(** A set of values closed under "first element" in which every member has a first element (e.g. a
+    cycle through first elements) is endless, hence refused by (b). *)
+Theorem c14_first_element_cycles_are_endless : forall h (S : hval -> Prop),
+  first_closed h S -> forall n v, S v -> endless h n v.
+Proof. exact first_closed_endless. Qed.
+Print Assumptions c14_first_element_cycles_are_endless.
+
+(** * Non-vacuity *)
+
+(** A heap with a shared sub-value (object 1 is referenced twice), a map with two keys given in
+    unsorted order, a bigintType value that fits int64: the hypotheses of [c14_deser_ser] hold, and
+    [norm] is not the identity on it. *)
+Definition ex_heap : heap :=
+  [ OList [HArr 1; HMap 2; HArr 1; HPrim (PBig 5)];
+    OList [HPrim (PBytes [1; 2; 3]); HPrim (PBool true)];
+    OMap [(PInt 300, HArr 1); (PBytes [7], HPrim (PInt (-1)))] ].
+
+Example c14_deser_ser_nonvacuous :
+  exists t, unfold ex_heap 4 (HStruct 0) = Some t /\ (tdepth t <= max_struct_depth)%nat /\
+    within_limits t = true /\ N.of_nat (length (enc t)) <= max_ser_size /\ norm t <> t /\
+    h_serialize ex_heap 0 4 (HStruct 0) [] = rs_ret (enc t) /\ deserialize (enc t) = DOk (norm t, []).
+Proof.
+  eexists. split; [vm_compute; reflexivity|].
+  split; [vm_compute; repeat constructor|]. split; [vm_compute; reflexivity|].
+  split; [vm_compute; discriminate|]. split; [vm_compute; discriminate|].
+  apply c14_deser_ser; [vm_compute; reflexivity|vm_compute; repeat constructor|vm_compute; reflexivity|vm_compute; discriminate].
+Qed.
+
+(** a = [a; 1]: a cycle through the first element; (b) of the partial theorem applies. *)
+Example c14_first_cycle_nonvacuous :
+  let h := [OList [HArr 0; HPrim (PInt 1)]] in
+  cyclic h (HArr 0) /\ endless h (S max_struct_depth) (HArr 0) /\
+  h_build h 5 (HArr 0) [] = mkRs None [ECircular] false.
+Proof.
+  cbv zeta. split.
+  - exists (HArr 0%nat). split; [constructor|]. apply (reach1_step _ (HArr 0%nat) (HArr 0%nat)); [left; reflexivity|constructor].
+  - split; [|vm_compute; reflexivity].
+    apply (c14_first_element_cycles_are_endless _ (fun v => v = HArr 0%nat)); [|reflexivity].
+    intros v ->. split.
+    + exists (HArr 0%nat). apply (fnext_arr _ 0%nat (HArr 0%nat) [HPrim (PInt 1)]). reflexivity.
+    + intros w Hw. inversion Hw as [a x r E| |]; subst. cbn in E. congruence.
+Qed.
+
+(** A map whose two values differ in depth: the detector's answer depends on Go's iteration order
+    (both answers possible) - the model keeps both. *)
+Example c14_map_order_dependent :
+  let h := [OMap [(PInt 1, HArr 1); (PInt 2, HPrim (PInt 0))];
+            OList [HArr 2]; OList [HArr 3]; OList [HArr 4]; OList [HArr 5]; OList [HArr 6]; OList [HArr 7];
+            OList [HArr 8]; OList [HArr 9]; OList [HArr 10]; OList [HArr 11]; OList [HPrim (PInt 7)]] in
+  detect_top h (HMap 0) = (true, true).
+Proof. vm_compute. reflexivity. Qed.
